@@ -17,6 +17,8 @@ ID = "C12"
 RULE = ("case = seeded random UFO as in C01 (plus repeated contours so that subroutines are "
         "created, kerning + mark anchors + a GSUB feature so that layout tables exist) compiled "
         "under optimizeCFF {0,1,2} x subroutinizer {None,cffsubr,compreffor} x cffVersion {1,2}; "
+        "1 % of the cases: ~800 glyphs sharing 230-300 curve motifs (more than 215 shared pieces, so "
+        "that compreffor fills the global subroutine index too) under 4 of the combinations; "
         "distinct = sha1 of the case; non-trivial = >= 6 combinations compiled and compared and "
         "the font has a curve or a component")
 ASSUMPTIONS = [
@@ -26,7 +28,8 @@ ASSUMPTIONS = [
     "differences are counted per kind in the evidence",
 ]
 NONVACUITY = ["combos_compared", "glyphs_compared", "width_eq_default", "zero_length_sources",
-              "fonts_with_subrs", "rejected_not_implemented", "layout_tables_compared"]
+              "fonts_with_subrs", "rejected_not_implemented", "layout_tables_compared",
+              "cff1_fonts_with_global_subrs_compreffor"]
 
 COMBOS = [
     (0, None, 1), (0, None, 2), (1, None, 1), (1, None, 2),
@@ -49,7 +52,50 @@ feature liga { sub %s by %s; } liga;
 """
 
 
+def gen_many_motifs(rng):
+    """A real-size amount of repetition: a few hundred distinct curve motifs, each shared by
+    three glyphs - more shared pieces than one-byte local subroutine numbers can address (215),
+    so that compreffor also fills the GLOBAL subroutine index."""
+    n_motifs = rng.choice([230, 260, 300])
+    glyphs = []
+    gi = 0
+    for m in range(n_motifs):
+        segs = [[(rng.randint(-90, 90), rng.randint(-90, 90)) for _ in range(3)] for _ in range(6)]
+        for r in range(3):
+            gi += 1
+            ox, oy = 100 + 3 * r + m % 7, 50 + 5 * r
+            tri = [[ox, oy, "line"], [ox + 40 + gi % 50, oy, "line"], [ox + 17, oy + 33 + gi % 31, "line"]]
+            x, y = 300, 300
+            pts = []
+            for seg in segs:
+                for j, (dx, dy) in enumerate(seg):
+                    x += dx
+                    y += dy
+                    pts.append([x, y, "curve" if j == 2 else None])
+            # closed contour that starts at its last on-curve point
+            motif = [pts[-1]] + pts[:-1]
+            glyphs.append({"name": "g%04d" % gi, "width": 600, "unicodes": [],
+                           "contours": [tri, motif], "components": [], "anchors": []})
+    glyphs.append({"name": "A", "width": 700, "unicodes": [0x41], "components": [],
+                   "anchors": [{"name": "top", "x": 250, "y": 700}],
+                   "contours": [[[0, 0, "line"], [300, 0, "line"], [150, 650, "line"]]]})
+    glyphs.append({"name": "gravecomb", "width": 0, "unicodes": [0x300], "components": [],
+                   "anchors": [{"name": "_top", "x": 100, "y": 600}],
+                   "contours": [[[50, 620, "line"], [150, 620, "line"], [100, 720, "line"]]]})
+    glyphs.append({"name": "V", "width": 680, "unicodes": [0x56], "components": [], "anchors": [],
+                   "contours": [[[0, 650, "line"], [150, 0, "line"], [300, 650, "line"]]]})
+    return {"stratum": "many_motifs",
+            "ufo": {"glyphs": glyphs, "info": {"unitsPerEm": 1000, "familyName": "T", "styleName": "R"},
+                    "kerning": [["A", "V", -40]], "features": FEA % ("A", "V")},
+            "lib": rng.choice(["defcon", "ufoLib2"])}
+
+
+MANY_COMBOS = [(0, None, 1), (2, "compreffor", 1), (2, "cffsubr", 1), (2, None, 2)]
+
+
 def gen(rng, idx, tier):
+    if idx % 100 == 37:
+        return gen_many_motifs(rng)
     mode = rng.choice(["mixed", "dyadic", "int"])
     glyphs = bounded_font(rng, mode)
     # repeat contours across glyphs -> the subroutinisers find something to share
@@ -141,7 +187,7 @@ def run(case):
     results = {}
     violations = []
     all_empty = not any(g["contours"] for g in spec["glyphs"])
-    for opt, sub, ver in COMBOS:
+    for opt, sub, ver in (MANY_COMBOS if case.get("stratum") == "many_motifs" else COMBOS):
         font = build_ufo(spec, case["lib"])
         kw = dict(useProductionNames=False, optimizeCFF=opt, cffVersion=ver)
         if sub is not None:
@@ -178,7 +224,15 @@ def run(case):
             violations.append({"mech": "glyph_order_differs", "detail": {"combo": [opt, sub, ver]}})
             continue
         layout = {t: tt.reader[t] for t in ("GPOS", "GDEF", "GSUB") if t in tt.reader}
-        results[(opt, sub, ver)] = {"glyphs": observe(tt, names), "layout": layout,
+        if "CFF " in tt and len(tt["CFF "].cff.GlobalSubrs or []):
+            bump("cff1_fonts_with_global_subrs_%s" % (sub or "default"))
+        try:
+            obs = observe(tt, names)
+        except Exception:  # noqa: BLE001
+            violations.append({"mech": "saved_font_cannot_be_drawn", "detail": {
+                "combo": [opt, sub, ver], "trace": traceback.format_exc()[-1500:]}})
+            continue
+        results[(opt, sub, ver)] = {"glyphs": obs, "layout": layout,
                                     "subrs": n_subrs(tt) if opt >= 2 else 0}
     keys = list(results)
     if len(keys) >= 2:
@@ -237,7 +291,7 @@ def run(case):
                 if len(ons) > 1 and ons[i][0] == ons[i - 1][0] and ons[i][1] == ons[i - 1][1]:
                     bump("zero_length_sources")
                     break
-    nontrivial = len(keys) >= 6 and any(
+    nontrivial = len(keys) >= (3 if case.get("stratum") == "many_motifs" else 6) and any(
         g["components"] or any(p[2] in ("curve", "qcurve") for c in g["contours"] for p in c)
         for g in spec["glyphs"])
     return {"status": "violated" if violations else "held", "violations": violations,
